@@ -83,7 +83,7 @@ Proof.
       assert (Hev : sess_evo (clear_events s) x).
       { eapply sess_evo_handle_nonstart; [apply kinv_clear; exact Hi|exact H|]. intros f i n ->. eapply Hns. reflexivity. }
       destruct E as [Ec _ _ _]. destruct Hev as [Ec' _]. simpl in Ec'. lia.
-    + injection Hstep as <-. destruct E as [Ec _ _ _].
+    + destruct (forallb pchange_valid _); [|discriminate]. injection Hstep as <-. destruct E as [Ec _ _ _].
       assert (sess_count (fold_left apply_pchange cs (clear_events s)) = sess_count s); [|lia].
       apply (fold_left_inv (fun y => sess_count y = sess_count s)); [|reflexivity].
       intros y c Hy. pose proof (apply_pchange_keeps y c). rewrite <- Hy. keeps_solve.
